@@ -213,7 +213,7 @@ package kcp
 //
 //@ func KCP.NoDelay
 //@   requires kcp.wfT()
-//@   modifies kcp.nodelay, kcp.rx_minrto, kcp.interval, kcp.fastresend, kcp.nocwnd
+//@   modifies kcp.nodelay, kcp.rx_minrto, kcp.rx_rto, kcp.interval, kcp.fastresend, kcp.nocwnd
 //@   ensures @C18 kcp.wfT()
 //@   ensures result == 0
 //
